@@ -224,5 +224,101 @@ def priorStream (truthyGuard : Bool) (seed : Option Nat) (g : Nat) : PriorStream
 def populationStream (seed : Option Nat) : Option Nat := seed.map (· + 1)
 
 
+/-! ### optimisation table: the two label columns, runs that break down -/
+
+/-- `log_posterior.get_id()`: one label (or `None`) for an individual `LogPosterior`, a list with
+    one entry per parameter for hierarchical / population-filter posteriors -/
+inductive PostId where
+  | scalar (i : Option String)
+  | perParam (ids : List (Option String))
+  deriving Repr
+
+/-- the per-run frame of `OptimisationController.run`, restricted to its two label columns
+    (`none` = missing value).  It is created with its columns but without rows. -/
+structure LabelFrame where
+  nrows : Nat
+  idCol : List (Option String)
+  paramCol : List (Option String)
+  deriving Repr, DecidableEq
+
+def LabelFrame.empty : LabelFrame := ⟨0, [], []⟩
+
+/-- `run_result['ID'] = log_posterior.get_id()` (pandas): a scalar is broadcast over the rows the
+    frame has at that moment (none, on a frame without rows); a list gives a frame without rows its
+    rows (the other columns are filled with missing values) and must otherwise have one entry per row -/
+def LabelFrame.setId (f : LabelFrame) : PostId → Except IErr LabelFrame
+  | .scalar i => .ok { f with idCol := List.replicate f.nrows i }
+  | .perParam ids =>
+    if f.nrows = 0 then .ok ⟨ids.length, ids, List.replicate ids.length none⟩
+    else if ids.length = f.nrows then .ok { f with idCol := ids }
+    else .error .valueError
+
+/-- `run_result['Parameter'] = log_posterior.get_parameter_names()` -/
+def LabelFrame.setParam (f : LabelFrame) (names : List String) : Except IErr LabelFrame :=
+  if f.nrows = 0 then .ok ⟨names.length, List.replicate names.length none, names.map some⟩
+  else if names.length = f.nrows then .ok { f with paramCol := names.map some }
+  else .error .valueError
+
+/-- the two label assignments at the top of `OptimisationController.run`.
+    `idFirst = false` is the code as it is (parameter names, then the ID);
+    `idFirst = true` is the slip of exchanging the two statements -/
+def labelColumns (idFirst : Bool) (pid : PostId) (names : List String) : Except IErr LabelFrame :=
+  if idFirst then (LabelFrame.empty.setId pid) >>= (·.setParam names)
+  else (LabelFrame.empty.setParam names) >>= (·.setId pid)
+
+/-- what one optimisation run hands back: `(estimates, score)`, or nothing — it broke down -/
+abbrev Outcome (α : Type) := Option (List α × α)
+
+/-- the values written into the blocks of the runs, in run order; `last` are the values the local
+    variables `estimates`, `score` hold when the run starts.
+    `hoisted = false` is the code as it is: the `except` branch of every run fills `nan`;
+    `hoisted = true` is the slip of setting the `nan` defaults once, before the loop (`except: pass`):
+    the variables then still hold what the last finished run left in them -/
+def resolveRuns {α : Type} (hoisted : Bool) (nan : α) (K : Nat) :
+    List (Outcome α) → (List α × α) → List (List α × α)
+  | [], _ => []
+  | some e :: rest, _ => e :: resolveRuns hoisted nan K rest e
+  | none :: rest, last =>
+    (if hoisted then last else (List.replicate K nan, nan)) :: resolveRuns hoisted nan K rest last
+
+/-- `OptimisationController.run` as a function of the posterior's labels and the runs' outcomes -/
+def optTableOutcomes {α : Type} (hoisted idFirst : Bool) (nan : α) (pid : PostId)
+    (names : List String) (outs : List (Outcome α)) : Except IErr (List (TRow α)) :=
+  match labelColumns idFirst pid names with
+  | .error e => .error e
+  | .ok f => .ok (optTable f.idCol names
+      (resolveRuns hoisted nan names.length outs (List.replicate names.length nan, nan)))
+
+/-! ### one `PredictiveModel`, several consumers with their own name maps -/
+
+/-- what happens to ONE `PredictiveModel` object: a `PosteriorPredictiveModel` with the given
+    `param_map` is built from it, or the `obj`-th object built so far is used (sampled from) -/
+inductive PEvent where
+  | construct (paramMap : List (String × String))
+  | use (obj : Nat)
+  deriving Repr
+
+/-- the (mapped) names every `use` reads, in order.  State: the predictive model's own name list
+    and the name lists of the objects built so far.
+    `aliased = false` is the code as it is: `get_parameter_names()` hands out a copy, which
+    `_check_parameters` rewrites and keeps;
+    `aliased = true` is the slip of handing out the list itself: the rewrite lands in the one list
+    that the predictive model and all objects built from it then share -/
+def sharedRun (aliased : Bool) :
+    List PEvent → List String → List (List String) → List (Option (List String))
+  | [], _, _ => []
+  | .construct pm :: rest, pred, objs =>
+    let mine := pred.map (mapName pm)
+    if aliased then sharedRun aliased rest mine (objs.map (fun _ => mine) ++ [mine])
+    else sharedRun aliased rest pred (objs ++ [mine])
+  | .use j :: rest, pred, objs => objs[j]? :: sharedRun aliased rest pred objs
+
+/-- the maps of the construct events, in order -/
+def constructMaps : List PEvent → List (List (String × String))
+  | [] => []
+  | .construct pm :: rest => pm :: constructMaps rest
+  | .use _ :: rest => constructMaps rest
+
+
 end Inference
 end ChiModel
